@@ -14,7 +14,7 @@ import (
 // ---------- schema for URL suites: small name alphabet, prefix-related relationship names ----------
 
 var urlRelNames = []string{"many", "manys", "one", "r", "r.x", "a"}
-var urlAttrNames = []string{"name", "n", "age", "b", "c", "ISBN", "Name"} // mixed case: bytewise order is not alphabetical order
+var urlAttrNames = []string{"name", "n", "age", "b", "c", "ISBN", "Name", "first name"} // mixed case: bytewise order is not alphabetical order
 
 func genURLSchema(r *Rng, o *Out) *jsonapi.Schema {
 	s := &jsonapi.Schema{}
